@@ -69,6 +69,8 @@ FIXED = [
  "fixed: property=C03 594a293 SQUARED_DIFFERENCE in front of a bypassed RESHAPE: int32 intermediates and the final MUL took the reshaped shape (same class as 92fd28e), found by the reshape sweep tools/dev/reshape_sweep.py (findings/FX-squared-difference-behind-bypassed-reshape.C03.json)",
  "fixed: property=C01 7568689 int16 AVERAGE_POOL_2D with stride 4 (converted to a convolution): reduced 16-bit multiplier scaling selected by the default int64 bias; exact average off by one or two steps (findings/FX-int16-avgpool-stride4-reduced-scale.C01.json)",
  "fixed: property=C04 353b244 RESIZE_BILINEAR half_pixel_centers behind a striped producer (cascade under --optimise Size): the depthwise step following the producer stripe that writes the last IFM row got BLOCKDEP 3; the IFM shape is one row/column short of what the edge replication reads, so not even the address overlap was seen (completes f2e4106) (findings/FX-resize-bilinear-hpc-blockdep-striped.C10.json)",
+ "fixed: property=C13 50917e0 SQUARED_DIFFERENCE with a constant operand whose lowered operations end up in two Ethos-U operators: an int32 intermediate cloned from the constant kept its values and tripped an assertion in tflite_writer.serialise_tensor (findings/FX-squared-difference-const-clone-values.C13.json)",
+ "fixed: property=C10 6e136dc PAD ; RESHAPE ; convolution with VALID padding: the PAD was replaced by hardware padding although a bypassed RESHAPE sits between them (reads outside the tensor / undefined bytes, wrong values) (findings/FX-pad-reshape-conv-hw-padding.C10.json)",
 ]
 EXTRA = [
  dict(id="F19-non-default-allocator-exceeds-arena-cache", property="C02", status="known",
